@@ -682,6 +682,8 @@ class Interp:
                 return Const(float(v.v), frame.body.tystr(rv["to"]))
             if ck.startswith("PointerCoercion") or ck in ("PtrToPtr", "Transmute"):
                 return v
+            if ck in ("IntToInt", "IntToFloat", "FloatToFloat") and isinstance(v, (Top, Sym, Adt)):
+                return v        # numeric conversion of an unknown: keep its provenance
             return Top("cast") if not isinstance(v, (Sym,)) else v
         if k == "binop":
             a = self.operand(frame, rv["a"], st)
